@@ -11,7 +11,6 @@ from _griffe.agents.nodes.assignments import get_instance_names, get_names
 from _griffe.agents.nodes.ast import (
     ast_children,
     ast_kind,
-    ast_next,
 )
 from _griffe.agents.nodes.docstrings import get_docstring
 from _griffe.agents.nodes.exports import safe_get__all__
@@ -19,7 +18,7 @@ from _griffe.agents.nodes.imports import relative_to_absolute
 from _griffe.agents.nodes.parameters import get_parameters
 from _griffe.collections import LinesCollection, ModulesCollection
 from _griffe.enumerations import Kind
-from _griffe.exceptions import AliasResolutionError, CyclicAliasError, LastNodeError
+from _griffe.exceptions import AliasResolutionError, CyclicAliasError
 from _griffe.expressions import (
     Expr,
     ExprName,
@@ -561,10 +560,15 @@ class Visitor:
 
         value = safe_get_expression(node.value, parent=self.current, parse_strings=False)
 
-        try:
-            docstring = self._get_docstring(ast_next(node), strict=True)
-        except (LastNodeError, AttributeError):
-            docstring = None
+        # The docstring of an attribute is the string right after it *in the same block*:
+        # `ast_next` would also return the first statement of a following `else`/`finally` block.
+        docstring = None
+        for block in vars(node.parent).values():  # type: ignore[union-attr]
+            if isinstance(block, list) and any(child is node for child in block):
+                following = block[[child is node for child in block].index(True) + 1 :]
+                if following:
+                    docstring = self._get_docstring(following[0], strict=True)
+                break
 
         for name in names:
             # TODO: Handle assigns like `x.y = z`.
